@@ -76,4 +76,28 @@ func (p *Pipeline) HandleWithBeforeAfter(ctx *context.Context, before *Pipeline,
   ghost at call[1] doHandle: endB := sawEnd
   ghost at call[2] doHandle: segM := runLen
   ghost at call[2] doHandle: endM := sawEnd
+
+// ---- C11: hot update of a pipeline: the new generation is fully built before the old one is closed ----
+ghost var gReloaded int      // the pipeline whose reload has completed
+ghost var gClosedAfter int   // value of gReloaded when the previous generation was closed
+
+func (p *Pipeline) reload(previousGeneration *Pipeline)
+  trusted
+  flag allocates
+  modifies gReloaded, p.filters, p.flow, p.resilience
+  ensures gReloaded == ref(p)
+
+func (p *Pipeline) Close()
+  trusted
+  modifies gClosedAfter
+  ensures gClosedAfter == gReloaded
+
+func (p *Pipeline) Inherit(superSpec *supervisor.Spec, previousGeneration supervisor.Object, muxMapper context.MuxMapper)
+  flag allocates
+  requires p != nil && superSpec != nil
+  requires same-kind-predecessor: typeIs(previousGeneration, "*Pipeline") && ifaceVal(previousGeneration) != 0 && ifaceVal(previousGeneration) != ref(p)
+  requires spec-of-this-kind: typeIs(superSpec.objectSpec, "*Spec")
+  modifies p.superSpec, p.spec, p.filters, p.flow, p.resilience, gReloaded, gClosedAfter
+  ensures old-generation-closed-only-after-the-new-one-is-built: gClosedAfter == ref(p) && gReloaded == ref(p)
+  ensures new-spec-installed: p.superSpec == superSpec
 @*/
